@@ -1,6 +1,6 @@
 (* LexL: proofs relating the model Fix/ValidateValue.v (patched SchemaField.validate_value) to the specification
    Fix/Lex.v (FIX 4.4 lexical spaces) - C19. *)
-From Coq Require Import ZArith NArith List Bool Lia ZifyBool.
+From Coq Require Import ZArith NArith List Bool Lia ZifyBool Btauto.
 From AF Require Import Base.Sx Py.Str Fix.Lex Fix.ValidateValue.
 Import ListNotations.
 Open Scope N_scope.
@@ -406,3 +406,776 @@ Proof.
   destruct s as [|c s]; [congruence|]. cbn [nonempty andb].
   destruct (existsb (N.eqb 1) (c :: s)), (existsb (N.eqb 61) (c :: s)), (values_ok true (c :: s)); reflexivity.
 Qed.
+
+(* ================================================================ calendar *)
+
+Lemma leap_eq : forall y, py_is_leap y = leap_year y.
+Proof.
+  intro y. unfold py_is_leap, leap_year.
+  assert (H4 : y mod 400 = 0 -> y mod 4 = 0 /\ y mod 100 = 0).
+  { intro H. apply N.mod_divide in H; [|lia]. destruct H as [k Hk]. split; apply N.mod_divide; try lia.
+    - exists (k * 100). lia.
+    - exists (k * 4). lia. }
+  destruct (y mod 400 =? 0) eqn:E1; destruct (y mod 4 =? 0) eqn:E2; destruct (y mod 100 =? 0) eqn:E3; try reflexivity;
+    apply N.eqb_eq in E1; destruct (H4 E1) as [A B]; rewrite ?N.eqb_neq in *; congruence.
+Qed.
+
+Lemma py_dim_eq : forall y m, valid_month m = true -> py_days_in_month y m = days_in_month y m.
+Proof.
+  intros y m H. unfold valid_month in H.
+  assert (C : m = 1 \/ m = 2 \/ m = 3 \/ m = 4 \/ m = 5 \/ m = 6 \/ m = 7 \/ m = 8 \/ m = 9 \/ m = 10 \/ m = 11 \/ m = 12) by lia.
+  unfold py_days_in_month, days_in_month. rewrite leap_eq.
+  repeat (destruct C as [C | C]; [subst m; simpl; try destruct (leap_year y); reflexivity|]).
+  subst m; reflexivity.
+Qed.
+
+Lemma dim_bounds : forall y m, 28 <= days_in_month y m <= 31.
+Proof.
+  intros. unfold days_in_month. destruct (m =? 2); [destruct (leap_year y); lia|].
+  destruct ((m =? 4) || (m =? 6) || (m =? 9) || (m =? 11)); lia.
+Qed.
+
+(* ================================================================ fixed-width layouts *)
+
+Lemma validate_datetime_eq : forall f s,
+  validate_datetime f s
+  = negb (layout f (in_str 46 s && has_S f) s && (strptime_regex_ok (fields f s) && datetime_ok (fields f s))).
+Proof. intros. unfold validate_datetime. destruct (layout f _ s); reflexivity. Qed.
+
+Lemma xorb_absorb : forall a k, xorb a (a && k) = a && negb k.
+Proof. destruct a, k; reflexivity. Qed.
+
+Lemma matches_length : forall p s, matches p s = true -> length s = length p.
+Proof.
+  induction p as [|q p IH]; destruct s as [|x s]; simpl; intro H; try discriminate; [reflexivity|].
+  apply andb_prop in H. destruct H as [_ H]. f_equal. auto.
+Qed.
+
+Lemma matches_nil : forall s, matches [] s = is_nil s.
+Proof. destruct s; reflexivity. Qed.
+
+Lemma matches_app : forall p q s,
+  matches (p ++ q) s = matches p (firstn (length p) s) && matches q (skipn (length p) s).
+Proof.
+  induction p as [|a p IH]; intros q s.
+  - reflexivity.
+  - destruct s as [|x s]; [reflexivity|]. cbn [app matches length firstn skipn]. rewrite IH, andb_assoc. reflexivity.
+Qed.
+
+Lemma matches_not_in : forall c p s,
+  forallb (fun q => negb (pc_ok q c)) p = true -> matches p s = true -> in_str c s = false.
+Proof.
+  intros c. induction p as [|q p IH]; destruct s as [|x s]; cbn [forallb matches]; intros Hp Hm; try discriminate; [reflexivity|].
+  apply andb_prop in Hp. destruct Hp as [Hq Hp]. apply andb_prop in Hm. destruct Hm as [Hx Hm].
+  unfold in_str in *. cbn [existsb]. rewrite (IH s Hp Hm), orb_false_r.
+  destruct (c =? x) eqn:E; [|reflexivity]. apply N.eqb_eq in E. subst x. rewrite Hx in Hq. discriminate.
+Qed.
+
+Lemma in_str_app : forall c a b, in_str c (a ++ b) = in_str c a || in_str c b.
+Proof. intros. unfold in_str. apply existsb_app. Qed.
+
+Lemma field_at_firstn : forall i n k s, (i + n <= k)%nat -> field_at i n (firstn k s) = field_at i n s.
+Proof.
+  intros i n k s H. unfold field_at. rewrite skipn_firstn_comm, firstn_firstn.
+  replace (Init.Nat.min n (k - i)) with n by lia. reflexivity.
+Qed.
+
+Lemma skipn_skipn' : forall (A : Type) k i (s : list A), skipn i (skipn k s) = skipn (k + i) s.
+Proof.
+  induction k as [|k IH]; intros i s; [reflexivity|].
+  destruct s as [|x s]; [rewrite !skipn_nil; reflexivity|]. cbn [skipn Nat.add]. apply IH.
+Qed.
+
+Lemma field_at_skipn : forall i n k s, field_at i n (skipn k s) = field_at (k + i) n s.
+Proof. intros. unfold field_at. rewrite skipn_skipn'. reflexivity. Qed.
+
+(* ================================================================ dates *)
+
+Definition date_ok (d : str) : bool :=
+  matches P_Ymd d && (regex_date (fields F_Ymd d) && check_date_fields (fields F_Ymd d)).
+
+Lemma date8 : forall c1 c2 c3 c4 c5 c6 c7 c8, let d := [c1; c2; c3; c4; c5; c6; c7; c8] in
+  date_ok d = lex_date d && negb (year0 d).
+Proof.
+  intros. subst d.
+  cbv [date_ok regex_date check_date_fields P_Ymd P_Ym app matches pc_ok fields field_at skipn firstn dec_digits fold_left
+       pY pm pd pH pM pS lex_date year0 forallb valid_day num].
+  change re_digit with dig.
+  set (m := 10 * (10 * 0 + (c5 - 48)) + (c6 - 48)).
+  set (y := 10 * (10 * (10 * (10 * 0 + (c1 - 48)) + (c2 - 48)) + (c3 - 48)) + (c4 - 48)).
+  destruct (valid_month m) eqn:HM.
+  - rewrite (py_dim_eq y m HM). pose proof (dim_bounds y m). unfold valid_month in HM. unfold dig. subst y m. lia.
+  - unfold valid_month in HM. unfold dig. lia.
+Qed.
+
+Lemma lex_date_len : forall s, lex_date s = true -> length s = 8%nat.
+Proof.
+  intros s H. do 8 (destruct s as [|? s]; [discriminate H|]). destruct s; [reflexivity | discriminate H].
+Qed.
+
+Lemma date_ok_spec : forall d, date_ok d = lex_date d && negb (year0 d).
+Proof.
+  intro d. destruct (Nat.eq_dec (length d) 8) as [L|L].
+  - do 8 (destruct d as [|? d]; [discriminate L|]). destruct d; [|discriminate L]. apply date8.
+  - assert (E1 : date_ok d = false).
+    { unfold date_ok. destruct (matches P_Ymd d) eqn:E; [|reflexivity]. apply matches_length in E. contradiction. }
+    assert (E2 : lex_date d = false).
+    { destruct (lex_date d) eqn:E; [|reflexivity]. apply lex_date_len in E. contradiction. }
+    rewrite E1, E2. reflexivity.
+Qed.
+
+Lemma accept_date : forall s, negb (validate_datetime F_Ymd s) = date_ok s.
+Proof.
+  intro s. rewrite validate_datetime_eq, negb_involutive. cbn [has_S]. rewrite andb_false_r.
+  unfold date_ok, strptime_regex_ok, datetime_ok, layout.
+  assert (E1 : regex_time (fields F_Ymd s) = true) by reflexivity.
+  assert (E2 : check_time_fields (fields F_Ymd s) = true) by reflexivity.
+  rewrite E1, E2, !andb_true_r. reflexivity.
+Qed.
+
+Lemma kind_date : forall s, accepts_kind KDate s = xorb (lex_date s) (lex_date s && year0 s).
+Proof.
+  intro s. unfold accepts_kind. cbn [validate_kind]. rewrite accept_date, date_ok_spec, xorb_absorb. reflexivity.
+Qed.
+
+(* ================================================================ times *)
+
+Definition hms_ok (h : str) : bool :=
+  matches P_HMS h && (regex_time (fields F_HMS h) && check_time_fields (fields F_HMS h)).
+Definition frac_ok (f : str) : bool := is_nil f || matches P_F3 f || matches P_F6 f.
+
+Lemma hms8 : forall c1 c2 c3 c4 c5 c6 c7 c8, let h := [c1; c2; c3; c4; c5; c6; c7; c8] in
+  hms_ok h = lex_time h && negb (second60 h).
+Proof.
+  intros. subst h.
+  cbv [hms_ok regex_time check_time_fields P_HMS matches pc_ok fields field_at skipn firstn dec_digits fold_left
+       pY pm pd pH pM pS lex_time lex_millis second60 forallb num].
+  change re_digit with dig. unfold dig. lia.
+Qed.
+
+Lemma hms_ok_spec : forall h, (length h <= 8)%nat -> hms_ok h = lex_time h && negb (second60 h).
+Proof.
+  intros h L.
+  destruct (Nat.eq_dec (length h) 8) as [E|E].
+  - do 8 (destruct h as [|? h]; [discriminate E|]). destruct h; [|discriminate E]. apply hms8.
+  - assert (E1 : hms_ok h = false).
+    { unfold hms_ok. destruct (matches P_HMS h) eqn:M; [|reflexivity]. apply matches_length in M. contradiction. }
+    assert (E2 : lex_time h = false).
+    { clear E1. do 8 (destruct h as [|? h]; [reflexivity|]). destruct h; [contradiction E; reflexivity | simpl in L; lia]. }
+    rewrite E1, E2. reflexivity.
+Qed.
+
+Lemma lex_time_split : forall t, lex_time t = lex_time (firstn 8 t) && lex_millis (skipn 8 t).
+Proof.
+  intro t. do 8 (destruct t as [|? t]; [reflexivity|]).
+  cbn [firstn skipn]. unfold lex_time. cbn [lex_millis]. rewrite andb_true_r. reflexivity.
+Qed.
+
+Lemma second60_firstn : forall t, second60 t = second60 (firstn 8 t).
+Proof. intro t. do 8 (destruct t as [|? t]; [reflexivity|]). reflexivity. Qed.
+
+Lemma lex_millis_frac : forall f, lex_millis f = is_nil f || matches P_F3 f.
+Proof.
+  intro f.
+  do 4 (destruct f as [|? f];
+        [cbv [lex_millis is_nil orb matches P_F3 pc_ok]; rewrite ?andb_false_r; reflexivity|]).
+  destruct f as [|? f].
+  - cbv [lex_millis is_nil orb matches P_F3 pc_ok]. change re_digit with dig. rewrite andb_true_r, !andb_assoc. reflexivity.
+  - cbv [lex_millis is_nil orb matches P_F3 pc_ok]. rewrite !andb_false_r. reflexivity.
+Qed.
+
+Lemma frac_exclusive : forall f, matches P_F6 f = true -> is_nil f = false /\ matches P_F3 f = false.
+Proof.
+  intros f H. apply matches_length in H. split.
+  - destruct f; [discriminate H | reflexivity].
+  - destruct (matches P_F3 f) eqn:E; [|reflexivity]. apply matches_length in E. rewrite E in H. discriminate H.
+Qed.
+
+Lemma frac_layout : forall f,
+  (if in_str 46 f then matches P_F3 f || matches P_F6 f else is_nil f) = frac_ok f.
+Proof.
+  intro f. unfold frac_ok. destruct f as [|p r]; [reflexivity|].
+  unfold in_str. cbn [existsb is_nil orb]. cbv [P_F6 P_F3 app]. cbn [matches pc_ok]. rewrite (N.eqb_sym 46 p).
+  destruct (p =? 46); cbn [andb orb]; [reflexivity|].
+  destruct (existsb (N.eqb 46) r); reflexivity.
+Qed.
+
+Lemma accept_hms_gen : forall t dot,
+  (matches P_HMS (firstn 8 t) = true -> dot = in_str 46 (skipn 8 t)) ->
+  layout F_HMS dot t && (regex_time (fields F_HMS t) && check_time_fields (fields F_HMS t))
+  = hms_ok (firstn 8 t) && frac_ok (skipn 8 t).
+Proof.
+  intros t dot Hdot. unfold hms_ok.
+  assert (EF : fields F_HMS (firstn 8 t) = fields F_HMS t).
+  { unfold fields. rewrite !field_at_firstn by lia. reflexivity. }
+  rewrite EF.
+  assert (EL : layout F_HMS dot t = matches P_HMS (firstn 8 t)
+               && (if dot then matches P_F3 (skipn 8 t) || matches P_F6 (skipn 8 t) else is_nil (skipn 8 t))).
+  { unfold layout. destruct dot.
+    - rewrite !matches_app. change (length P_HMS) with 8%nat. rewrite andb_orb_distrib_r. reflexivity.
+    - rewrite <- (app_nil_r P_HMS) at 1. rewrite matches_app, matches_nil. reflexivity. }
+  rewrite EL. destruct (matches P_HMS (firstn 8 t)) eqn:M; [|reflexivity].
+  rewrite (Hdot eq_refl), frac_layout. cbn [andb].
+  apply andb_comm.
+Qed.
+
+Lemma hms_nodot : forall h, matches P_HMS h = true -> in_str 46 h = false.
+Proof. intros h H. apply (matches_not_in 46 P_HMS h); [reflexivity | exact H]. Qed.
+
+Lemma accept_time : forall t, negb (validate_datetime F_HMS t) = hms_ok (firstn 8 t) && frac_ok (skipn 8 t).
+Proof.
+  intro t. rewrite validate_datetime_eq, negb_involutive. cbn [has_S]. rewrite andb_true_r.
+  unfold strptime_regex_ok, datetime_ok.
+  assert (E1 : regex_date (fields F_HMS t) = true) by reflexivity.
+  assert (E2 : check_date_fields (fields F_HMS t) = true) by reflexivity.
+  rewrite E1, E2. cbn [andb].
+  apply accept_hms_gen. intro M.
+  rewrite <- (firstn_skipn 8 t) at 1. rewrite in_str_app, (hms_nodot _ M). reflexivity.
+Qed.
+
+Definition micros_time (t : str) : bool := micros (fun b => lex_time b && negb (second60 b)) 12 t.
+
+Lemma micros_time_spec : forall t,
+  micros_time t = lex_time (firstn 8 t) && negb (second60 (firstn 8 t)) && matches P_F6 (skipn 8 t).
+Proof.
+  intro t. unfold micros_time, micros.
+  do 15 (destruct t as [|? t];
+    [ cbv [length Nat.eqb Nat.add firstn skipn P_F6 P_F3 app matches pc_ok lex_time lex_millis]; cbn [andb];
+      rewrite ?andb_false_r; reflexivity |]).
+  destruct t as [|? t].
+  - cbv [length Nat.eqb Nat.add firstn skipn P_F6 P_F3 app matches pc_ok lex_time lex_millis forallb second60 num fold_left].
+    change re_digit with dig. btauto.
+  - cbv [length Nat.eqb Nat.add firstn skipn P_F6 P_F3 app matches pc_ok]. cbn [andb]. rewrite ?andb_false_r. reflexivity.
+Qed.
+
+Lemma kind_time : forall t, accepts_kind KTimeOnly t = xorb (lex_time t) (kf DUTCTimeOnly t).
+Proof.
+  intro t. unfold accepts_kind. cbn [validate_kind kf]. rewrite accept_time.
+  fold (micros_time t). rewrite micros_time_spec.
+  rewrite hms_ok_spec by (rewrite firstn_length; lia).
+  rewrite (lex_time_split t), (second60_firstn t), lex_millis_frac. unfold frac_ok.
+  pose proof (frac_exclusive (skipn 8 t)) as X.
+  destruct (lex_time (firstn 8 t)), (second60 (firstn 8 t)), (is_nil (skipn 8 t)), (matches P_F3 (skipn 8 t)),
+    (matches P_F6 (skipn 8 t)); try reflexivity; destruct (X eq_refl); discriminate.
+Qed.
+
+(* ================================================================ timestamps *)
+
+Lemma layout_ts_split : forall dot s,
+  layout F_YmdHMS dot s
+  = matches P_Ymd (firstn 8 s) && matches [PC 45] (firstn 1 (skipn 8 s)) && layout F_HMS dot (skipn 9 s).
+Proof.
+  intros dot s. unfold layout. destruct dot.
+  - rewrite <- !app_assoc.
+    rewrite (matches_app P_Ymd), (matches_app [PC 45]). rewrite (matches_app P_Ymd _ s), (matches_app [PC 45]).
+    change (length P_Ymd) with 8%nat. change (length [PC 45]) with 1%nat. rewrite skipn_skipn'. cbn [Nat.add].
+    destruct (matches P_Ymd (firstn 8 s)), (matches [PC 45] (firstn 1 (skipn 8 s))); reflexivity.
+  - rewrite (matches_app P_Ymd), (matches_app [PC 45]).
+    change (length P_Ymd) with 8%nat. change (length [PC 45]) with 1%nat. rewrite skipn_skipn'. cbn [Nat.add].
+    rewrite andb_assoc. reflexivity.
+Qed.
+
+Lemma ymd_nodot : forall d, matches P_Ymd d = true -> in_str 46 d = false.
+Proof. intros d H. apply (matches_not_in 46 P_Ymd d); [reflexivity | exact H]. Qed.
+Lemma dash_nodot : forall d, matches [PC 45] d = true -> in_str 46 d = false.
+Proof. intros d H. apply (matches_not_in 46 [PC 45] d); [reflexivity | exact H]. Qed.
+
+Lemma accept_ts : forall s,
+  negb (validate_datetime F_YmdHMS s)
+  = date_ok (firstn 8 s) && matches [PC 45] (firstn 1 (skipn 8 s))
+    && (hms_ok (firstn 8 (skipn 9 s)) && frac_ok (skipn 8 (skipn 9 s))).
+Proof.
+  intro s. rewrite validate_datetime_eq, negb_involutive. cbn [has_S]. rewrite andb_true_r.
+  unfold strptime_regex_ok, datetime_ok. rewrite layout_ts_split.
+  assert (Erd : regex_date (fields F_YmdHMS s) = regex_date (fields F_Ymd (firstn 8 s))).
+  { unfold regex_date, fields. cbn [pm pd]. rewrite !field_at_firstn by lia. reflexivity. }
+  assert (Ecd : check_date_fields (fields F_YmdHMS s) = check_date_fields (fields F_Ymd (firstn 8 s))).
+  { unfold check_date_fields, fields. cbn [pY pm pd]. rewrite !field_at_firstn by lia. reflexivity. }
+  assert (Ert : regex_time (fields F_YmdHMS s) = regex_time (fields F_HMS (skipn 9 s))).
+  { unfold regex_time, fields. cbn [pH pM pS]. rewrite !field_at_skipn. reflexivity. }
+  assert (Ect : check_time_fields (fields F_YmdHMS s) = check_time_fields (fields F_HMS (skipn 9 s))).
+  { unfold check_time_fields, fields. cbn [pH pM pS]. rewrite !field_at_skipn. reflexivity. }
+  rewrite Erd, Ecd, Ert, Ect. unfold date_ok.
+  destruct (matches P_Ymd (firstn 8 s)) eqn:A; [|reflexivity].
+  destruct (matches [PC 45] (firstn 1 (skipn 8 s))) eqn:B; [|cbn [andb]; rewrite andb_false_r; reflexivity].
+  cbn [andb]. rewrite andb_true_r.
+  rewrite <- (accept_hms_gen (skipn 9 s) (in_str 46 s)).
+  - set (L := layout F_HMS (in_str 46 s) (skipn 9 s)).
+    destruct L, (regex_date (fields F_Ymd (firstn 8 s))), (check_date_fields (fields F_Ymd (firstn 8 s))),
+      (regex_time (fields F_HMS (skipn 9 s))), (check_time_fields (fields F_HMS (skipn 9 s))); reflexivity.
+  - intro M.
+    rewrite <- (firstn_skipn 8 s) at 1. rewrite in_str_app, (ymd_nodot _ A). cbn [orb].
+    rewrite <- (firstn_skipn 1 (skipn 8 s)) at 1. rewrite in_str_app, (dash_nodot _ B). cbn [orb].
+    rewrite skipn_skipn'. cbn [Nat.add].
+    rewrite <- (firstn_skipn 8 (skipn 9 s)) at 1. rewrite in_str_app, (hms_nodot _ M). reflexivity.
+Qed.
+
+Lemma lex_ts_split : forall s,
+  lex_timestamp s = lex_date (firstn 8 s) && matches [PC 45] (firstn 1 (skipn 8 s)) && lex_time (skipn 9 s).
+Proof.
+  intro s. do 8 (destruct s as [|? s]; [reflexivity|]).
+  destruct s as [|? s].
+  - cbn [firstn skipn matches]. rewrite andb_false_r. reflexivity.
+  - cbn [firstn skipn matches pc_ok]. unfold lex_timestamp. rewrite andb_true_r. reflexivity.
+Qed.
+
+Lemma year0_firstn : forall s, year0 s = year0 (firstn 8 s).
+Proof. intro s. do 4 (destruct s as [|? s]; [reflexivity|]). reflexivity. Qed.
+
+Definition micros_ts (s : str) : bool :=
+  micros (fun b => lex_timestamp b && negb (year0 b) && negb (second60 (skipn 9 b))) 21 s.
+
+Lemma micros_ts_spec : forall s,
+  micros_ts s = lex_date (firstn 8 s) && negb (year0 (firstn 8 s)) && matches [PC 45] (firstn 1 (skipn 8 s))
+                && micros_time (skipn 9 s).
+Proof.
+  intro s. unfold micros_ts, micros_time, micros.
+  do 24 (destruct s as [|? s];
+    [ cbv [length Nat.eqb Nat.add firstn skipn matches pc_ok lex_date]; cbn [andb];
+      rewrite ?andb_false_r; reflexivity |]).
+  destruct s as [|? s].
+  - cbv [length Nat.eqb Nat.add firstn skipn matches pc_ok lex_timestamp lex_date lex_time lex_millis forallb
+         year0 second60 num fold_left valid_day valid_month].
+    btauto.
+  - cbv [length Nat.eqb Nat.add firstn skipn]. cbn [andb]. rewrite ?andb_false_r. reflexivity.
+Qed.
+
+Lemma kind_timestamp : forall s, accepts_kind KTimestamp s = xorb (lex_timestamp s) (kf DUTCTimestamp s).
+Proof.
+  intro s. unfold accepts_kind. cbn [validate_kind kf]. rewrite accept_ts.
+  fold (micros_ts s). rewrite micros_ts_spec, micros_time_spec.
+  rewrite date_ok_spec, hms_ok_spec by (rewrite firstn_length; lia).
+  rewrite (lex_ts_split s), (year0_firstn s), (lex_time_split (skipn 9 s)), (second60_firstn (skipn 9 s)), lex_millis_frac.
+  unfold frac_ok.
+  pose proof (frac_exclusive (skipn 8 (skipn 9 s))) as X.
+  destruct (lex_date (firstn 8 s)), (year0 (firstn 8 s)), (matches [PC 45] (firstn 1 (skipn 8 s))),
+    (lex_time (firstn 8 (skipn 9 s))), (second60 (firstn 8 (skipn 9 s))), (is_nil (skipn 8 (skipn 9 s))),
+    (matches P_F3 (skipn 8 (skipn 9 s))), (matches P_F6 (skipn 8 (skipn 9 s)));
+    try reflexivity; destruct (X eq_refl); discriminate.
+Qed.
+
+(* ================================================================ month-year *)
+
+Definition ym_ok (v : str) : bool :=
+  matches P_Ym v && (regex_date (fields F_Ym v) && check_date_fields (fields F_Ym v)).
+
+Lemma accept_ym : forall s, negb (validate_datetime F_Ym s) = ym_ok s.
+Proof.
+  intro s. rewrite validate_datetime_eq, negb_involutive. cbn [has_S]. rewrite andb_false_r.
+  unfold ym_ok, strptime_regex_ok, datetime_ok, layout.
+  assert (E1 : regex_time (fields F_Ym s) = true) by reflexivity.
+  assert (E2 : check_time_fields (fields F_Ym s) = true) by reflexivity.
+  rewrite E1, E2, !andb_true_r. reflexivity.
+Qed.
+
+Lemma ym6 : forall c1 c2 c3 c4 c5 c6, let v := [c1; c2; c3; c4; c5; c6] in
+  ym_ok v = lex_monthyear v && negb (year0 v).
+Proof.
+  intros. subst v.
+  cbv [ym_ok regex_date check_date_fields P_Ym matches pc_ok fields field_at skipn firstn dec_digits fold_left
+       pY pm pd pH pM pS lex_monthyear year0 forallb num].
+  change re_digit with dig.
+  set (m := 10 * (10 * 0 + (c5 - 48)) + (c6 - 48)).
+  set (y := 10 * (10 * (10 * (10 * 0 + (c1 - 48)) + (c2 - 48)) + (c3 - 48)) + (c4 - 48)).
+  destruct (valid_month m) eqn:HM.
+  - rewrite (py_dim_eq y m HM). pose proof (dim_bounds y m). unfold valid_month in HM. unfold dig. subst y m. lia.
+  - unfold valid_month in HM. unfold dig. lia.
+Qed.
+
+Lemma ym_ok_len : forall v, ym_ok v = true -> length v = 6%nat.
+Proof.
+  intros v H. unfold ym_ok in H. apply andb_prop in H. destruct H as [H _]. apply matches_length in H. exact H.
+Qed.
+
+Lemma monthyear_len : forall s, lex_monthyear s = true -> length s = 6%nat \/ length s = 8%nat.
+Proof.
+  intros s H. do 6 (destruct s as [|? s]; [discriminate H|]).
+  destruct s as [|? s]; [left; reflexivity|]. destruct s as [|? s]; [discriminate H|].
+  destruct s as [|? s]; [right; reflexivity | discriminate H].
+Qed.
+
+Lemma validate_monthyear_len : forall s, length s <> 6%nat -> length s <> 8%nat -> validate_monthyear s = true.
+Proof.
+  intros s H6 H8. unfold validate_monthyear.
+  destruct (in_str 119 s).
+  - destruct (negb (mem_str (skipn (length s - 2) s) WEEKS)); [reflexivity|].
+    rewrite firstn_length.
+    assert (E : (Init.Nat.min (length s - 2) (length s) =? 6)%nat = false) by (apply Nat.eqb_neq; lia).
+    rewrite E. reflexivity.
+  - assert (E : (length s =? 6)%nat = false) by (apply Nat.eqb_neq; exact H6). rewrite E.
+    apply negb_false_iff. rewrite accept_date.
+    unfold date_ok. destruct (matches P_Ymd s) eqn:M; [|reflexivity]. apply matches_length in M. contradiction.
+Qed.
+
+Lemma monthyear6 : forall c1 c2 c3 c4 c5 c6, let s := [c1; c2; c3; c4; c5; c6] in
+  negb (validate_monthyear s) = lex_monthyear s && negb (year0 s).
+Proof.
+  intros. subst s. unfold validate_monthyear.
+  cbn [length Nat.sub skipn firstn Nat.eqb negb].
+  match goal with |- context [in_str 119 ?l] => destruct (in_str 119 l) eqn:W end.
+  - assert (E : lex_monthyear [c1; c2; c3; c4; c5; c6] = false).
+    { cbv [in_str existsb] in W. cbv [lex_monthyear forallb]. unfold dig. lia. }
+    rewrite E. destruct (negb (mem_str [c5; c6] WEEKS)); reflexivity.
+  - rewrite accept_ym. apply ym6.
+Qed.
+
+Lemma monthyear8 : forall c1 c2 c3 c4 c5 c6 c7 c8, let s := [c1; c2; c3; c4; c5; c6; c7; c8] in
+  negb (validate_monthyear s) = lex_monthyear s && negb (year0 s).
+Proof.
+  intros. subst s. unfold validate_monthyear.
+  cbn [length Nat.sub skipn firstn Nat.eqb negb].
+  match goal with |- context [in_str 119 ?l] => destruct (in_str 119 l) eqn:W end.
+  - destruct (mem_str [c7; c8] WEEKS) eqn:K; cbn [negb].
+    + rewrite accept_ym, ym6. cbv [mem_str existsb WEEKS str_eqb] in K.
+      cbv [lex_monthyear forallb year0 num fold_left valid_day]. unfold dig in *. lia.
+    + cbv [mem_str existsb WEEKS str_eqb] in K. cbv [in_str existsb] in W.
+      assert (E : lex_monthyear [c1; c2; c3; c4; c5; c6; c7; c8] = false).
+      { cbv [lex_monthyear forallb]. unfold dig. lia. }
+      rewrite E. reflexivity.
+  - rewrite accept_date, date8. cbv [in_str existsb] in W.
+    cbv [lex_date lex_monthyear forallb year0]. unfold dig. lia.
+Qed.
+
+Lemma kind_monthyear : forall s, accepts_kind KMonthYear s = xorb (lex_monthyear s) (lex_monthyear s && year0 s).
+Proof.
+  intro s. unfold accepts_kind. cbn [validate_kind]. rewrite xorb_absorb.
+  destruct (Nat.eq_dec (length s) 6) as [L6|L6].
+  - do 6 (destruct s as [|? s]; [discriminate L6|]). destruct s; [|discriminate L6]. apply monthyear6.
+  - destruct (Nat.eq_dec (length s) 8) as [L8|L8].
+    + do 8 (destruct s as [|? s]; [discriminate L8|]). destruct s; [|discriminate L8]. apply monthyear8.
+    + rewrite (validate_monthyear_len s L6 L8).
+      destruct (lex_monthyear s) eqn:E; [|reflexivity]. apply monthyear_len in E. destruct E; contradiction.
+Qed.
+
+(* ================================================================ validate_value *)
+
+Definition plain (tag ty : str) : field := mkField tag ty [].
+
+Definition kind_of (d : datatype) : kind :=
+  match d with
+  | DInt => KInt
+  | DLength | DData => KUnchecked
+  | DNumInGroup | DSeqNum => KPositive
+  | DDayOfMonth => KDayOfMonth
+  | DFloat | DQty | DPrice | DPriceOffset | DAmt | DPercentage => KFloat
+  | DChar => KChar
+  | DBoolean => KBoolean
+  | DString => KString
+  | DMultipleValueString => KMulti
+  | DCountry => KCountry
+  | DCurrency => KCurrency
+  | DExchange => KExchange
+  | DMonthYear => KMonthYear
+  | DUTCTimestamp => KTimestamp
+  | DUTCTimeOnly => KTimeOnly
+  | DUTCDateOnly | DLocalMktDate => KDate
+  end.
+
+(* the dispatch of validate_value sends every dictionary name of a FIX datatype to the validator of that datatype *)
+Lemma classify_ok : forall n d, datatype_of_name n = Some d -> classify (upper n) = kind_of d.
+Proof.
+  intros n d. unfold datatype_of_name, datatype_names. cbn [assoc_name].
+  repeat match goal with
+  | |- (if code_eqb n ?k then _ else _) = _ -> _ =>
+      destruct (code_eqb n k) eqn:E;
+      [ apply code_eqb_eq in E; subst n; intro H; injection H as H; subst d; vm_compute; reflexivity | clear E ]
+  end.
+  discriminate.
+Qed.
+
+Lemma kind_of_supported : forall d, match kind_of d with KUnsupported => true | _ => false end = false.
+Proof. destruct d; reflexivity. Qed.
+
+Lemma lex_nil : forall d, lex d [] = false.
+Proof. destruct d; reflexivity. Qed.
+
+Lemma kf_nil : forall d, kf d [] = false.
+Proof. destruct d; reflexivity. Qed.
+
+Lemma kind_spec : forall d s, s <> [] -> accepts_kind (kind_of d) s = xorb (lex d s) (kf d s).
+Proof.
+  intros d s Hne.
+  assert (Hn : nonempty s = true) by (destruct s; [congruence | reflexivity]).
+  destruct d; cbn [kind_of lex kf].
+  - apply kind_int.
+  - unfold accepts_kind. cbn [validate_kind negb]. rewrite Hn. destruct (lex_positive s); reflexivity.
+  - apply kind_positive.
+  - apply kind_positive.
+  - apply kind_dayofmonth.
+  - apply kind_float.
+  - apply kind_float.
+  - apply kind_float.
+  - apply kind_float.
+  - apply kind_float.
+  - apply kind_float.
+  - apply (kind_char s Hne).
+  - rewrite xorb_false_r. apply (kind_boolean s Hne).
+  - apply (kind_string s Hne).
+  - apply (kind_multi s Hne).
+  - rewrite xorb_false_r. apply (validate_code 2 s Hne).
+  - rewrite xorb_false_r. apply (validate_code 3 s Hne).
+  - rewrite xorb_false_r. apply (validate_code 4 s Hne).
+  - apply kind_monthyear.
+  - apply kind_timestamp.
+  - apply kind_time.
+  - apply kind_date.
+  - apply kind_date.
+  - unfold accepts_kind, lex_data. cbn [validate_kind negb]. rewrite Hn. reflexivity.
+Qed.
+
+Definition is_endseqno_zero (tag s : str) : bool := str_eqb tag TAG_16 && str_eqb s [48].
+
+Lemma validate_plain : forall tag n d s, datatype_of_name n = Some d ->
+  validate_value (plain tag n) s
+  = if xorb (lex d s) (kf d s) || (is_endseqno_zero tag s) then Accept false else Raise EFIXMessageError.
+Proof.
+  intros tag n d s Hd. unfold validate_value.
+  destruct s as [|c s].
+  - rewrite lex_nil, kf_nil. unfold is_endseqno_zero. rewrite andb_false_r. reflexivity.
+  - cbn [is_nil plain f_values f_type negb]. rewrite (classify_ok n d Hd), kind_of_supported.
+    assert (K := kind_spec d (c :: s) ltac:(discriminate)). unfold accepts_kind in K.
+    rewrite <- K. unfold special_cases, is_endseqno_zero. cbn [f_tag plain].
+    destruct (str_eqb tag TAG_16), (str_eqb (c :: s) [48]), (validate_kind (kind_of d) (c :: s)); reflexivity.
+Qed.
+
+(* main statement: acceptance is membership in the lexical space, exactly off the known-finding classes *)
+Lemma validate_exact : forall tag n d s, datatype_of_name n = Some d -> tag <> TAG_16 ->
+  (validate_value (plain tag n) s = Accept false <-> xorb (lex d s) (kf d s) = true).
+Proof.
+  intros tag n d s Hd Ht. rewrite (validate_plain tag n d s Hd).
+  assert (E : is_endseqno_zero tag s = false).
+  { unfold is_endseqno_zero. destruct (str_eqb tag TAG_16) eqn:E; [apply str_eqb_eq in E; contradiction | reflexivity]. }
+  rewrite E, orb_false_r. destruct (xorb (lex d s) (kf d s)); split; intro H; try reflexivity; discriminate.
+Qed.
+
+Lemma validate_lexical : forall tag n d s, datatype_of_name n = Some d -> tag <> TAG_16 -> kf d s = false ->
+  (validate_value (plain tag n) s = Accept false <-> lex d s = true).
+Proof.
+  intros tag n d s Hd Ht Hk. rewrite (validate_exact tag n d s Hd Ht), Hk, xorb_false_r. reflexivity.
+Qed.
+
+Lemma validate_deviates : forall tag n d s, datatype_of_name n = Some d -> tag <> TAG_16 -> kf d s = true ->
+  (validate_value (plain tag n) s = Accept false <-> lex d s = false).
+Proof.
+  intros tag n d s Hd Ht Hk. rewrite (validate_exact tag n d s Hd Ht), Hk.
+  destruct (lex d s); split; intro H; try reflexivity; discriminate.
+Qed.
+
+Lemma validate_endseqno : forall n d s, datatype_of_name n = Some d ->
+  (validate_value (plain TAG_16 n) s = Accept false <-> xorb (lex d s) (kf d s) = true \/ s = [48]).
+Proof.
+  intros n d s Hd. rewrite (validate_plain TAG_16 n d s Hd). unfold is_endseqno_zero. rewrite str_eqb_refl. cbn [andb].
+  destruct (xorb (lex d s) (kf d s)); cbn [orb].
+  - split; intro; [left|]; reflexivity.
+  - destruct (str_eqb s [48]) eqn:E.
+    + apply str_eqb_eq in E. split; intro; [right; exact E | reflexivity].
+    + split; intro H; [discriminate|]. destruct H as [H|H]; [discriminate|]. apply str_eqb_eq in H. congruence.
+Qed.
+
+Lemma validate_no_warning : forall tag n d s, datatype_of_name n = Some d -> validate_value (plain tag n) s <> Accept true.
+Proof.
+  intros tag n d s Hd. rewrite (validate_plain tag n d s Hd).
+  destruct (xorb (lex d s) (kf d s) || is_endseqno_zero tag s); discriminate.
+Qed.
+
+Lemma validate_error_class : forall f s e, validate_value f s = Raise e -> e = EFIXMessageError.
+Proof.
+  intros f s e. unfold validate_value.
+  destruct (is_nil s); [intro H; injection H as H; congruence|].
+  destruct (negb (is_nil (f_values f))).
+  - destruct (mem_str s (f_values f)); intro H; [discriminate | injection H as H; congruence].
+  - destruct (special_cases f s _); intro H; [injection H as H; congruence | discriminate].
+Qed.
+
+Lemma validate_enum : forall f s, f_values f <> [] ->
+  (validate_value f s = Accept false <-> s <> [] /\ In s (f_values f)).
+Proof.
+  intros f s Hv. unfold validate_value.
+  destruct s as [|c s]; cbn [is_nil].
+  - split; [discriminate | intros [H _]; congruence].
+  - destruct (f_values f) as [|v vs] eqn:E; [congruence|]. cbn [is_nil negb].
+    destruct (mem_str (c :: s) (v :: vs)) eqn:M.
+    + apply mem_str_In in M. split; [intros _; split; [discriminate | exact M] | reflexivity].
+    + split; [discriminate|]. intros [_ H]. apply mem_str_In in H. congruence.
+Qed.
+
+(* ================================================================ witnesses of the known findings (on the model) *)
+
+Definition TAG_1 : str := [49].
+Definition accepted (r : result) : bool := match r with Accept false => true | _ => false end.
+Definition refused (r : result) : bool := match r with Raise EFIXMessageError => true | _ => false end.
+
+(* huge numbers: 4301 digits; 10^309 *)
+Lemma int_refuted : exists s, lex DInt s = true /\ validate_value (plain TAG_1 n_INT) s = Raise EFIXMessageError.
+Proof. exists (repeat 49 4301). split; vm_compute; reflexivity. Qed.
+
+Lemma float_refuted : exists s, lex DFloat s = true /\ validate_value (plain TAG_1 n_FLOAT) s = Raise EFIXMessageError.
+Proof. exists (49 :: repeat 48 309). split; vm_compute; reflexivity. Qed.
+
+(* the largest finite double + half an ulp - 1 is still accepted: the threshold is exact *)
+Lemma float_below_threshold_accepted :
+  validate_value (plain TAG_1 n_FLOAT) (Sx.n_to_dec (FLOAT_INF - 1)) = Accept false
+  /\ validate_value (plain TAG_1 n_FLOAT) (Sx.n_to_dec FLOAT_INF) = Raise EFIXMessageError.
+Proof. split; vm_compute; reflexivity. Qed.
+
+(* "a=b" *)
+Lemma string_refuted : exists s, lex DString s = true /\ validate_value (plain TAG_1 n_STRING) s = Raise EFIXMessageError.
+Proof. exists [97; 61; 98]. split; vm_compute; reflexivity. Qed.
+
+(* LENGTH "-5" *)
+Lemma length_refuted : exists s, lex DLength s = false /\ validate_value (plain TAG_1 n_LENGTH) s = Accept false.
+Proof. exists [45; 53]. split; vm_compute; reflexivity. Qed.
+
+(* "00000101" *)
+Lemma date_refuted : exists s, lex DUTCDateOnly s = true /\ validate_value (plain TAG_1 n_UTCDATEONLY) s = Raise EFIXMessageError.
+Proof. exists [48;48;48;48;48;49;48;49]. split; vm_compute; reflexivity. Qed.
+
+(* "000001" *)
+Lemma monthyear_refuted : exists s, lex DMonthYear s = true /\ validate_value (plain TAG_1 n_MONTHYEAR) s = Raise EFIXMessageError.
+Proof. exists [48;48;48;48;48;49]. split; vm_compute; reflexivity. Qed.
+
+(* "23:59:60" refused, "14:00:00.123456" accepted *)
+Lemma timeonly_refuted :
+  (exists s, lex DUTCTimeOnly s = true /\ validate_value (plain TAG_1 n_UTCTIMEONLY) s = Raise EFIXMessageError)
+  /\ (exists s, lex DUTCTimeOnly s = false /\ validate_value (plain TAG_1 n_UTCTIMEONLY) s = Accept false).
+Proof.
+  split.
+  - exists [50;51;58;53;57;58;54;48]. split; vm_compute; reflexivity.
+  - exists [49;52;58;48;48;58;48;48;46;49;50;51;52;53;54]. split; vm_compute; reflexivity.
+Qed.
+
+(* "20161231-23:59:60" refused, "20230921-14:00:00.123456" accepted, "00000101-00:00:00" refused *)
+Lemma timestamp_refuted :
+  (exists s, lex DUTCTimestamp s = true /\ validate_value (plain TAG_1 n_UTCTIMESTAMP) s = Raise EFIXMessageError)
+  /\ (exists s, lex DUTCTimestamp s = false /\ validate_value (plain TAG_1 n_UTCTIMESTAMP) s = Accept false)
+  /\ (exists s, lex DUTCTimestamp s = true /\ year0 s = true
+                /\ validate_value (plain TAG_1 n_UTCTIMESTAMP) s = Raise EFIXMessageError).
+Proof.
+  split; [|split].
+  - exists [50;48;49;54;49;50;51;49;45;50;51;58;53;57;58;54;48]. split; vm_compute; reflexivity.
+  - exists [50;48;50;51;48;57;50;49;45;49;52;58;48;48;58;48;48;46;49;50;51;52;53;54]. split; vm_compute; reflexivity.
+  - exists [48;48;48;48;48;49;48;49;45;48;48;58;48;48;58;48;48]. repeat split; vm_compute; reflexivity.
+Qed.
+
+(* non-vacuity: a leap-day timestamp with milliseconds is outside every class, in the space, and accepted;
+   EndSeqNo accepts "0" and "7", refuses "-1" *)
+Lemma nonvacuous :
+  let s := [50;48;50;52;48;50;50;57;45;50;51;58;53;57;58;53;57;46;57;57;57] in    (* 20240229-23:59:59.999 *)
+  datatype_of_name n_UTCTIMESTAMP = Some DUTCTimestamp /\ TAG_1 <> TAG_16 /\ kf DUTCTimestamp s = false
+  /\ lex DUTCTimestamp s = true /\ validate_value (plain TAG_1 n_UTCTIMESTAMP) s = Accept false
+  /\ validate_value (plain TAG_16 n_SEQNUM) [48] = Accept false
+  /\ validate_value (plain TAG_16 n_SEQNUM) [55] = Accept false
+  /\ validate_value (plain TAG_16 n_SEQNUM) [45; 49] = Raise EFIXMessageError
+  /\ validate_value (plain TAG_1 n_SEQNUM) [48] = Raise EFIXMessageError.
+Proof. cbv zeta. repeat split; try discriminate; vm_compute; reflexivity. Qed.
+
+(* ================================================================ per-datatype corollaries *)
+
+Lemma boolean_full : forall tag s, tag <> TAG_16 ->
+  (validate_value (plain tag n_BOOLEAN) s = Accept false <-> lex_boolean s = true).
+Proof. intros tag s H. exact (validate_lexical tag n_BOOLEAN DBoolean s eq_refl H eq_refl). Qed.
+
+Lemma country_full : forall tag s, tag <> TAG_16 ->
+  (validate_value (plain tag n_COUNTRY) s = Accept false <-> lex_code 2 s = true).
+Proof. intros tag s H. exact (validate_lexical tag n_COUNTRY DCountry s eq_refl H eq_refl). Qed.
+
+Lemma currency_full : forall tag s, tag <> TAG_16 ->
+  (validate_value (plain tag n_CURRENCY) s = Accept false <-> lex_code 3 s = true).
+Proof. intros tag s H. exact (validate_lexical tag n_CURRENCY DCurrency s eq_refl H eq_refl). Qed.
+
+Lemma exchange_full : forall tag s, tag <> TAG_16 ->
+  (validate_value (plain tag n_EXCHANGE) s = Accept false <-> lex_code 4 s = true).
+Proof. intros tag s H. exact (validate_lexical tag n_EXCHANGE DExchange s eq_refl H eq_refl). Qed.
+
+Lemma nonempty_iff : forall s : str, nonempty s = true <-> s <> [].
+Proof. destruct s; split; intro H; try reflexivity; try discriminate; congruence. Qed.
+
+Lemma data_full : forall tag s, tag <> TAG_16 ->
+  (validate_value (plain tag n_DATA) s = Accept false <-> s <> []).
+Proof.
+  intros tag s H. rewrite (validate_lexical tag n_DATA DData s eq_refl H eq_refl). apply nonempty_iff.
+Qed.
+
+Lemma length_unchecked : forall tag s, tag <> TAG_16 ->
+  (validate_value (plain tag n_LENGTH) s = Accept false <-> s <> []).
+Proof.
+  intros tag s H. rewrite (validate_exact tag n_LENGTH DLength s eq_refl H). cbn [lex kf].
+  rewrite <- nonempty_iff. destruct (lex_positive s) eqn:E, (nonempty s) eqn:N; cbn; split; intro X; try reflexivity; try discriminate.
+  destruct s; [discriminate E | discriminate N].
+Qed.
+
+Lemma int_partial : forall tag s, tag <> TAG_16 -> too_many_digits s = false ->
+  (validate_value (plain tag n_INT) s = Accept false <-> lex_int s = true).
+Proof.
+  intros tag s H K. apply (validate_lexical tag n_INT DInt s eq_refl H). cbn [kf]. rewrite K. apply andb_false_r.
+Qed.
+
+Lemma positive_partial : forall tag name s, In name [n_SEQNUM; n_NUMINGROUP] -> tag <> TAG_16 ->
+  too_many_digits s = false ->
+  (validate_value (plain tag name) s = Accept false <-> lex_positive s = true).
+Proof.
+  intros tag name s Hn H K. destruct Hn as [Hn | [Hn | []]]; subst name.
+  - apply (validate_lexical tag n_SEQNUM DSeqNum s eq_refl H). cbn [kf]. rewrite K. apply andb_false_r.
+  - apply (validate_lexical tag n_NUMINGROUP DNumInGroup s eq_refl H). cbn [kf]. rewrite K. apply andb_false_r.
+Qed.
+
+Lemma dayofmonth_partial : forall tag s, tag <> TAG_16 -> too_many_digits s = false ->
+  (validate_value (plain tag n_DAYOFMONTH) s = Accept false <-> lex_dayofmonth s = true).
+Proof.
+  intros tag s H K. apply (validate_lexical tag n_DAYOFMONTH DDayOfMonth s eq_refl H). cbn [kf]. rewrite K. apply andb_false_r.
+Qed.
+
+Lemma float_partial : forall tag name s,
+  In name [n_FLOAT; n_QTY; n_PRICE; n_PRICEOFFSET; n_AMT; n_PERCENTAGE] -> tag <> TAG_16 ->
+  float_overflows s = false ->
+  (validate_value (plain tag name) s = Accept false <-> lex_float s = true).
+Proof.
+  intros tag name s Hn H K.
+  destruct Hn as [Hn | [Hn | [Hn | [Hn | [Hn | [Hn | []]]]]]]; subst name.
+  - apply (validate_lexical tag n_FLOAT DFloat s eq_refl H). cbn [kf]. rewrite K. apply andb_false_r.
+  - apply (validate_lexical tag n_QTY DQty s eq_refl H). cbn [kf]. rewrite K. apply andb_false_r.
+  - apply (validate_lexical tag n_PRICE DPrice s eq_refl H). cbn [kf]. rewrite K. apply andb_false_r.
+  - apply (validate_lexical tag n_PRICEOFFSET DPriceOffset s eq_refl H). cbn [kf]. rewrite K. apply andb_false_r.
+  - apply (validate_lexical tag n_AMT DAmt s eq_refl H). cbn [kf]. rewrite K. apply andb_false_r.
+  - apply (validate_lexical tag n_PERCENTAGE DPercentage s eq_refl H). cbn [kf]. rewrite K. apply andb_false_r.
+Qed.
+
+Lemma string_partial : forall tag s, tag <> TAG_16 -> has_equals s = false ->
+  (validate_value (plain tag n_STRING) s = Accept false <-> lex_string s = true)
+  /\ (validate_value (plain tag n_CHAR) s = Accept false <-> lex_char s = true)
+  /\ (validate_value (plain tag n_MULTIPLEVALUESTRING) s = Accept false <-> lex_multi s = true)
+  /\ (validate_value (plain tag n_MULTIPLESTRINGVALUE) s = Accept false <-> lex_multi s = true).
+Proof.
+  intros tag s H K. repeat split.
+  - apply (validate_lexical tag n_STRING DString s eq_refl H). cbn [kf]. rewrite K. apply andb_false_r.
+  - apply (validate_lexical tag n_STRING DString s eq_refl H). cbn [kf]. rewrite K. apply andb_false_r.
+  - apply (validate_lexical tag n_CHAR DChar s eq_refl H). cbn [kf]. rewrite K. apply andb_false_r.
+  - apply (validate_lexical tag n_CHAR DChar s eq_refl H). cbn [kf]. rewrite K. apply andb_false_r.
+  - apply (validate_lexical tag n_MULTIPLEVALUESTRING DMultipleValueString s eq_refl H). cbn [kf]. rewrite K. apply andb_false_r.
+  - apply (validate_lexical tag n_MULTIPLEVALUESTRING DMultipleValueString s eq_refl H). cbn [kf]. rewrite K. apply andb_false_r.
+  - apply (validate_lexical tag n_MULTIPLESTRINGVALUE DMultipleValueString s eq_refl H). cbn [kf]. rewrite K. apply andb_false_r.
+  - apply (validate_lexical tag n_MULTIPLESTRINGVALUE DMultipleValueString s eq_refl H). cbn [kf]. rewrite K. apply andb_false_r.
+Qed.
+
+Lemma date_partial : forall tag name s, In name [n_UTCDATEONLY; n_LOCALMKTDATE] -> tag <> TAG_16 ->
+  year0 s = false ->
+  (validate_value (plain tag name) s = Accept false <-> lex_date s = true).
+Proof.
+  intros tag name s Hn H K. destruct Hn as [Hn | [Hn | []]]; subst name.
+  - apply (validate_lexical tag n_UTCDATEONLY DUTCDateOnly s eq_refl H). cbn [kf]. rewrite K. apply andb_false_r.
+  - apply (validate_lexical tag n_LOCALMKTDATE DLocalMktDate s eq_refl H). cbn [kf]. rewrite K. apply andb_false_r.
+Qed.
+
+Lemma monthyear_partial : forall tag s, tag <> TAG_16 -> year0 s = false ->
+  (validate_value (plain tag n_MONTHYEAR) s = Accept false <-> lex_monthyear s = true).
+Proof.
+  intros tag s H K. apply (validate_lexical tag n_MONTHYEAR DMonthYear s eq_refl H). cbn [kf]. rewrite K. apply andb_false_r.
+Qed.
+
+Lemma timeonly_partial : forall tag s, tag <> TAG_16 -> kf DUTCTimeOnly s = false ->
+  (validate_value (plain tag n_UTCTIMEONLY) s = Accept false <-> lex_time s = true).
+Proof. intros tag s H K. exact (validate_lexical tag n_UTCTIMEONLY DUTCTimeOnly s eq_refl H K). Qed.
+
+Lemma timestamp_partial : forall tag s, tag <> TAG_16 -> kf DUTCTimestamp s = false ->
+  (validate_value (plain tag n_UTCTIMESTAMP) s = Accept false <-> lex_timestamp s = true).
+Proof. intros tag s H K. exact (validate_lexical tag n_UTCTIMESTAMP DUTCTimestamp s eq_refl H K). Qed.
